@@ -66,6 +66,11 @@ func Run(args []string, stdin []byte, state State) (Result, State) {
 // working directory of the run, so that an argument can name the same relative
 // path with different contents in different runs.
 func RunWithFiles(args []string, stdin []byte, state State, files map[string][]byte) (Result, State) {
+	return RunOpts(args, stdin, state, files, false)
+}
+
+// RunOpts: stdoutFull connects the standard output to /dev/full, so that every write to it fails (ENOSPC).
+func RunOpts(args []string, stdin []byte, state State, files map[string][]byte, stdoutFull bool) (Result, State) {
 	scratch, err := os.MkdirTemp("", "verif-cli-")
 	if err != nil {
 		panic(err)
@@ -107,6 +112,12 @@ func RunWithFiles(args []string, stdin []byte, state State, files map[string][]b
 	cmd.Stdin = in
 	var so, se bytes.Buffer
 	cmd.Stdout, cmd.Stderr = &so, &se
+	if stdoutFull {
+		if full, err := os.OpenFile("/dev/full", os.O_WRONLY, 0); err == nil {
+			defer full.Close()
+			cmd.Stdout = full
+		}
+	}
 	cmd.Env = []string{"HOME=" + filepath.Join(scratch, "home"), "XDG_CACHE_HOME=" + cacheRoot, "TMPDIR=" + filepath.Join(scratch, "tmp"), "PATH=/usr/bin:/bin", "LANG=C"}
 	res := Result{}
 	if err := cmd.Start(); err != nil {
